@@ -159,6 +159,8 @@ def rand_set(rng, shape, fill):
         full = nd
     else:
         full = nd if rng.random() < 0.75 else int(rng.integers(1, nd + 1))
+        if rng.random() < 0.01:
+            full = 0   # the empty tuple: d[()] = value assigns to every element
         axes = list(range(full))
     key = [[None, None, None]] * full
     key = list(key)
@@ -483,6 +485,9 @@ CORPUS = [
         {"form": "fancy", "idxs": [[-1]], "bare": True, "asarray": False, "vshape": [], "vflat": [7], "vlist": False}]}),
     ("F-dok-fancy-raw-index", {"shape": [3], "fill": 0, "ops": [
         {"form": "fancy", "idxs": [[7]], "bare": True, "asarray": False, "vshape": [], "vflat": [5], "vlist": False}]}),
+    ("F-dok-empty-tuple-key", {"shape": [], "fill": 0, "ops": [S([], 4)]}),
+    ("F-dok-empty-tuple-key", {"shape": [3], "fill": 0, "ops": [S([], 4)]}),
+    ("F-dok-empty-tuple-key", {"shape": [2, 2], "fill": 2, "ops": [S([], 4, vshape=[2], vflat=[1, 3])]}),
     ("F-dok-fancy-empty", {"shape": [3], "fill": 0, "ops": [
         {"form": "fancy", "idxs": [[]], "bare": True, "asarray": False, "vshape": [], "vflat": [5], "vlist": False}]}),
     ("F-dok-fancy-bcast1", {"shape": [2, 3], "fill": 0, "ops": [
@@ -590,6 +595,7 @@ def run(ctx):
         "setitem_refines_partial": "Excluded_negStepStart0 (negative step, normalised start 0, extent > 1)",
         "fancy_refines_partial": "Excluded_fancyRawIndex / Excluded_fancyEmpty / Excluded_fancyBcast1",
         "Statement_mask_supported": "boolean masks are rejected outright (F-dok-boolmask)",
+        "step_refines_partial": "also Excluded_emptyTupleKey (d[()] = v) and Excluded_tupleRawIndex (d[i,] = v on 1-d with i outside [0, dim))",
     }
     ctx.cov["rule"] = (
         "histories of 1..30 assignments on shapes of rank 1-3 (extents 0..5, size <= 60), fills {0,2}, keys: ints (negative, 4% out of range), "
